@@ -42,8 +42,10 @@ def lean_str(s):
             o.append("\\r")
         elif " " <= c <= "~":
             o.append(c)
+        elif ord(c) < 0x20 or ord(c) == 0x7F:
+            o.append("\\x%02x" % ord(c))
         else:
-            o.append("\\u{%x}" % ord(c))
+            o.append(c)
     return '"' + "".join(o) + '"'
 
 
@@ -99,3 +101,223 @@ def ex_varname():
 
 
 EXTRACTORS["VarName"] = ex_varname
+
+
+# ---------------------------------------------------------------------------------------------
+# Expression tables: ExpressionLevel order, the two level functions, arms of to_proc_gen_rec and
+# expression_strigify_write, operator definitions and the parse_left_to_right! level chain.
+
+def _match_block(src, start):
+    """src[start] == '{' -> index just after the matching '}' (string/char literals respected)."""
+    assert src[start] == "{"
+    depth, i, n = 0, start, len(src)
+    while i < n:
+        c = src[i]
+        if c == '"':
+            i += 1
+            while src[i] != '"':
+                i += 2 if src[i] == "\\" else 1
+        elif c == "r" and src.startswith('r#"', i):
+            i = src.index('"#', i + 3) + 1
+        elif c == "'" and re.match(r"'(\\.|[^'\\])'", src[i:i + 4]):
+            i += len(re.match(r"'(\\.|[^'\\])'", src[i:i + 4]).group(0)) - 1
+        elif c == "/" and src.startswith("//", i):
+            i = src.index("\n", i)
+        elif c == "{":
+            depth += 1
+        elif c == "}":
+            depth -= 1
+            if depth == 0:
+                return i + 1
+        i += 1
+    raise core.BrokenTie("extract:brace", "unbalanced")
+
+
+def _level_enum(src):
+    m = re.search(r"pub\(crate\) enum ExpressionLevel \{(.*?)\}", src, re.S)
+    if not m:
+        raise core.BrokenTie("extract:ExpressionLevel", "pattern not found")
+    names = [re.sub(r"\s*=\s*\d+", "", x.strip()) for x in m.group(1).split(",") if x.strip()]
+    return names
+
+
+def _level_fn(src, header):
+    i = src.find(header)
+    if i < 0:
+        raise core.BrokenTie("extract:" + header, "pattern not found")
+    j = src.index("{", src.index("match expr", i))
+    body = src[j:_match_block(src, j)]
+    pairs = re.findall(r"Expression::(\w+)\s*\{\s*\.\.\s*\}\s*=>\s*ExpressionLevel::(\w+)", body)
+    if len(pairs) < 40:
+        raise core.BrokenTie("extract:" + header, f"only {len(pairs)} arms")
+    return pairs
+
+
+_EV = re.compile(
+    r'write!\(\s*(?P<wt>\w+),\s*(?:r#"(?P<raw>.*?)"#|"(?P<lit>(?:[^"\\]|\\.)*)")'
+    r"|ExpressionLevel::(?P<lvl>\w+)"
+    r"|(?P<priv>gen_private_ident)"
+    r"|(?P<call>to_proc_gen_rec_and_end_path|to_proc_gen_rec_and_combine_paths|to_proc_gen_rec)\("
+    r"|PathAnalysisState::(?P<pas>NotInPath|InPath)"
+    r"|(?P<stmt>w\.expr_stmt)"
+    r"|PathSlice::(?P<slice>\w+)", re.S)
+
+
+def _fmt(s):
+    """Rust format string -> text with literal braces and `§` for each placeholder ({} or {name})."""
+    o, i = [], 0
+    while i < len(s):
+        if s.startswith("{{", i):
+            o.append("{"); i += 2
+        elif s.startswith("}}", i):
+            o.append("}"); i += 2
+        elif s[i] == "{":
+            j = s.index("}", i)
+            o.append("§"); i = j + 1
+        else:
+            o.append(s[i]); i += 1
+    return "".join(o)
+
+
+def _rust_unescape(s):
+    return _fmt(s.replace('\\"', '"').replace("\\\\", "\\"))
+
+
+def _arms(src, fn_header, match_header, end_marker):
+    i = src.find(fn_header)
+    if i < 0:
+        raise core.BrokenTie("extract:" + fn_header, "pattern not found")
+    k = src.find(match_header, i)
+    if k < 0:
+        raise core.BrokenTie("extract:" + match_header, "pattern not found")
+    j = src.index("{", k + len(match_header) - 1)
+    end = _match_block(src, j)
+    body = src[j + 1:end - 1]
+    # split into arms: pattern `Expression::Name {...} [| Expression::Name {...}]* => {`
+    arms = []
+    pos = 0
+    arm_re = re.compile(r"\n\s{8,12}(Expression::\w+\s*\{[^}]*\}(?:\s*\|\s*Expression::\w+\s*\{[^}]*\})*)\s*=>\s*\{")
+    while True:
+        m = arm_re.search(body, pos)
+        if not m:
+            break
+        b0 = m.end() - 1
+        b1 = _match_block(body, b0)
+        names = re.findall(r"Expression::(\w+)", m.group(1))
+        arms.append((names, body[b0:b1]))
+        pos = b1
+    return arms
+
+
+def _events(text):
+    evs = []
+    for m in _EV.finditer(text):
+        if m.group("wt"):
+            lit = m.group("raw") if m.group("raw") is not None else _rust_unescape(m.group("lit"))
+            if m.group("raw") is not None:
+                lit = _fmt(lit)
+            evs.append(("w", m.group("wt"), lit))
+        elif m.group("lvl"):
+            evs.append(("lvl", m.group("lvl")))
+        elif m.group("priv"):
+            evs.append(("priv",))
+        elif m.group("call"):
+            evs.append(("call", m.group("call")))
+        elif m.group("pas"):
+            evs.append(("pas", m.group("pas")))
+        elif m.group("stmt"):
+            evs.append(("stmt",))
+        elif m.group("slice"):
+            evs.append(("slice", m.group("slice")))
+    return evs
+
+
+def _lean_ev(e):
+    if e[0] == "w":
+        return f".w {lean_str(e[1])} {lean_str(e[2])}"
+    if e[0] == "lvl":
+        return f".lvl {lean_str(e[1])}"
+    if e[0] == "call":
+        return f".call {lean_str(e[1])}"
+    if e[0] == "pas":
+        return f".pas {lean_str(e[1])}"
+    if e[0] == "slice":
+        return f".slice {lean_str(e[1])}"
+    return "." + e[0]
+
+
+def ex_exprtables():
+    sx = _read("glass-easel-template-compiler/src/stringify/expr.rs")
+    gx = _read("glass-easel-template-compiler/src/proc_gen/expr.rs")
+    px = _read("glass-easel-template-compiler/src/parse/expr.rs")
+    levels = _level_enum(sx)
+    str_levels = _level_fn(sx, "pub(crate) fn from_expression(expr: &Expression) -> Self")
+    gen_levels = _level_fn(gx, "fn proc_gen_expression_level(expr: &Expression) -> ExpressionLevel")
+    gen_arms = _arms(gx, "fn to_proc_gen_rec<W: Write>(", "let path_analysis_state: PathAnalysisState = match self {", None)
+    if len(gen_arms) < 40:
+        raise core.BrokenTie("extract:to_proc_gen_rec arms", f"only {len(gen_arms)} arms")
+    # head of to_proc_gen_rec: the parenthesising rule
+    i = gx.find("fn to_proc_gen_rec<W: Write>(")
+    head = re.sub(r"\s+", " ", gx[gx.index("{", gx.index("Result<PathAnalysisState, TmplError>", i)):gx.index("let path_analysis_state", i)])
+    head_expect = ('{ if proc_gen_expression_level(self) > allow_level { write!(value, "(")?; let ret = self.to_proc_gen_rec(w, scopes, '
+                   'ExpressionLevel::Cond, path_calc, value)?; write!(value, ")")?; return Ok(ret); } ')
+    # operators
+    ops = re.findall(r'define_operator!\((?:r#)?(\w+),\s*"([^"]*)"(?:,\s*\[([^\]]*)\])?\);', px)
+    if len(ops) < 30:
+        raise core.BrokenTie("extract:define_operator", f"only {len(ops)}")
+    chain = re.findall(r"parse_left_to_right!\((\w+),\s*(\w+),\s*(.*?)\);", px)
+    if len(chain) != 10:
+        raise core.BrokenTie("extract:parse_left_to_right", f"{len(chain)} instances")
+    out = ["/-! GENERATED from /repo (stringify/expr.rs, proc_gen/expr.rs, parse/expr.rs) by checklib/extractors.py — do not edit. -/",
+           "namespace GE.Extracted",
+           "inductive Ev where",
+           "  | w (target lit : String) | lvl (name : String) | priv | call (which : String) | pas (s : String) | stmt | slice (s : String)",
+           "deriving DecidableEq, Repr",
+           f"def levelNames : List String := [{', '.join(lean_str(x) for x in levels)}]",
+           f"def stringifyLevels : List (String × String) := [{', '.join('(%s, %s)' % (lean_str(a), lean_str(b)) for a, b in str_levels)}]",
+           f"def procGenLevels : List (String × String) := [{', '.join('(%s, %s)' % (lean_str(a), lean_str(b)) for a, b in gen_levels)}]",
+           f"def procGenParenRuleOk : Bool := {'true' if head.strip() == head_expect.strip() else 'false'}",
+           "def procGenArms : List (List String × List Ev) := ["]
+    rows = []
+    for names, text in gen_arms:
+        rows.append("  ([%s], [%s])" % (", ".join(lean_str(n) for n in names), ", ".join(_lean_ev(e) for e in _events(text))))
+    out.append(",\n".join(rows) + "]")
+    # interpreted unary / binary arms (shape-checked here; anything else stays a "special" arm)
+    un_rows, bin_rows, special = [], [], []
+    for names, text in gen_arms:
+        evs = _events(text)
+        if (len(evs) == 4 and evs[0][0] == "w" and evs[0][1] == "value" and evs[1] == ("call", "to_proc_gen_rec_and_end_path")
+                and evs[2][0] == "lvl" and evs[3] == ("pas", "NotInPath") and "§" not in evs[0][2]):
+            for n in names:
+                un_rows.append(f"  ({lean_str(n)}, {lean_str(evs[0][2])}, {lean_str(evs[2][1])})")
+        elif (len(evs) == 6 and evs[0] == ("call", "to_proc_gen_rec_and_end_path") and evs[1][0] == "lvl" and evs[2][0] == "w"
+                and evs[2][1] == "value" and evs[3] == ("call", "to_proc_gen_rec_and_end_path") and evs[4][0] == "lvl"
+                and evs[5] == ("pas", "NotInPath") and "§" not in evs[2][2]):
+            for n in names:
+                bin_rows.append(f"  ({lean_str(n)}, {lean_str(evs[1][1])}, {lean_str(evs[2][2])}, {lean_str(evs[4][1])})")
+        else:
+            special.extend(names)
+    out.append("/-- unary arms `write!(value, text); x.…end_path(…, level, …)`: (variant, text, level) -/")
+    out.append("def unArmTable : List (String × String × String) := [\n" + ",\n".join(un_rows) + "]")
+    out.append("/-- binary arms `x.…(…, left level …); write!(value, text); y.…(…, right level …)`: (variant, left, text, right) -/")
+    out.append("def binArmTable : List (String × String × String × String) := [\n" + ",\n".join(bin_rows) + "]")
+    out.append(f"def specialArms : List String := [{', '.join(lean_str(n) for n in special)}]")
+    out.append("/-- `define_operator!(name, text, [excluded followers])`; `none` = the 2-argument form (rejects a following identifier char) -/")
+    oprows = []
+    for name, text, exc in ops:
+        if exc is None or (exc == "" and re.search(r'define_operator!\((?:r#)?%s,\s*"%s"\);' % (name, re.escape(text)), px)):
+            oprows.append(f"  ({lean_str(name)}, {lean_str(text)}, none)")
+        else:
+            items = re.findall(r'"([^"]*)"', exc)
+            oprows.append(f"  ({lean_str(name)}, {lean_str(text)}, some [{', '.join(lean_str(x) for x in items)}])")
+    out.append("def parseOperators : List (String × String × Option (List String)) := [\n" + ",\n".join(oprows) + "]")
+    chrows = []
+    for cur, nxt, rest in chain:
+        pairs = re.findall(r"(\w+)\s*=>\s*(\w+)", rest)
+        chrows.append(f"  ({lean_str(cur)}, {lean_str(nxt)}, [{', '.join('(%s, %s)' % (lean_str(a), lean_str(b)) for a, b in pairs)}])")
+    out.append("def parseLevelChain : List (String × String × List (String × String)) := [\n" + ",\n".join(chrows) + "]")
+    out.append("end GE.Extracted\n")
+    return "\n".join(out)
+
+
+EXTRACTORS["ExprTables"] = ex_exprtables
